@@ -373,6 +373,11 @@ Definition ws_step (rt : router) (r : request) : stepres :=
   | RReject _ _ => wsi_step rt r
   end.
 
+(** the four dispatch paths *)
+Inductive path : Set := PTcp | PAsync | PWsInline | PWsOff.
+Definition step_of (p : path) : router -> request -> stepres :=
+  match p with PTcp => tcp_step | PAsync => async_step | PWsInline => wsi_step | PWsOff => wso_step end.
+
 (** ** a connection: a pipelined request list *)
 Fixpoint opt_list {A} (l : list (option A)) : list A :=
   match l with [] => [] | Some x :: l' => x :: opt_list l' | None :: l' => opt_list l' end.
@@ -648,8 +653,12 @@ Definition ok_C03 (c : case) (o : obs) : bool :=
 Definition panics (r : request) : bool := match o_user r with UPanic => true | _ => false end.
 
 Definition req_wf (c : case) (r : request) : bool :=
-  (* a panicking user function only behind an off-reader route, and then only the WebSocket server is used *)
-  (negb (panics r) || (spec_off (c_rt c) r && negb (c_tcp c) && negb (c_async c))) &&
+  (* a panicking user function is reached only behind an off-reader route, and then only the WebSocket server is used *)
+  (negb (panics r) ||
+   match dispatched (c_rt c) r with
+   | Some (_, h) => h_off h && negb (c_tcp c) && negb (c_async c)
+   | None => true
+   end) &&
   (* an exhausted permit pool is a WebSocket matter *)
   (negb (o_sat r) || (negb (c_tcp c) && negb (c_async c))).
 
